@@ -164,6 +164,7 @@ def estimator_chain(rep, an):
         F.forwards(rep, res, entry, {"lsq_linear_minimize"},
                    {"A": "self.A", "lb": "self.lb", "ub": "self.ub", "W": "self.W", "K": "self.K", "baseline": "self.baseline",
                     "B": "B", "l2_eps": "l2_eps", "l1_eps": "l1_eps", "Epsilon": want})
+        F.wrapper_returns_solution(rep, res, entry, {"lsq_linear_minimize"}, ("X", "B", "Bvar"))
         F.qty(rep, res, entry)
         # the default variance model is the REGISTERED one: a fit with explicit targets and an explicit model must not replace it
         R.rule_effect_free(rep, res, entry)
